@@ -120,22 +120,25 @@ CLAIMED = {
         "technique": "translation validation: regenerated fact lists + sound boolean checkers evaluated in Coq",
     },
     "C01": {
-        "text": "Machine-checked theorems over EVERY well-formed static file system, path, trailing mode and NO_SYMLINKS setting: (1) the "
-                "model PROGRAM of opath::resolve (the one tie T1 replays against the library call by call), executed on a static kernel "
-                "model, returns a descriptor for exactly the object the pure emulated walk ends on, or its errno, and never panics "
-                "(refinement, Rc/descriptor invariants included); (2) the emulated walk equals the kernel reference walk whenever the "
-                "kernel stays within its 40-link budget; both walks only return objects reachable from the root; the empty path is "
-                "ENOENT; loops end in ELOOP. Ties on every run: reference walk vs the kernel's raw openat2 (T2), walk model vs the "
-                "library's emulated backend (T2), static kernel model vs the real answers recorded for the library's own calls (T2'); "
-                "the library (resolve, readlink, open_subpath incl. F_GETFL) is compared with raw openat2 under both feature sets.",
+        "text": "Machine-checked theorems over EVERY well-formed static file system (no hard links), path, trailing mode and NO_SYMLINKS "
+                "setting: (1) C01_resolve_eq_walk: the model PROGRAM of opath::resolve -- the one tie T1 replays against the library "
+                "call by call, including every check_current with its procfs round-trips (as_unsafe_path through the ProcfsHandle) and "
+                "the Rc/descriptor bookkeeping -- executed on a static kernel model returns a descriptor for exactly the object the "
+                "pure emulated walk ends on, or its errno; never panics; (2) the emulated walk equals the kernel reference walk whenever "
+                "the kernel stays within its 40-link budget; results are reachable from the root; '' is ENOENT; loops end in ELOOP. "
+                "Ties on every run: reference walk vs the kernel's raw openat2 (T2), walk model vs the library's emulated backend (T2), "
+                "static kernel model vs the real answers recorded for the library's own calls, procfs reads of fd/N included (T2'); "
+                "deterministic link-budget boundary chains; library (resolve, readlink, open_subpath incl. F_GETFL) vs raw openat2 under "
+                "both feature sets.",
         "note": "Trusted: Coq kernel (no axioms); the hand-written models coq/theories/FSModel.v (kwalk = description of Linux), "
-                "Static.v (per-call answers of Linux on a static tree) and OpathM.v (imp.rs), all tied by differential runs / trace "
-                "replay, not proved equal to the C/Rust code. The refinement theorem is parametric in the check routine: it holds for "
-                "every routine that succeeds when the walk is where it believes to be; that check_current is such a routine on a "
-                "quiescent tree (it goes through procfs, which Static.v does not model) is exercised by T1/T2, not proved. "
-                "No DAC/MAC permissions modelled. Known finding F-H (41..127 links).",
-        "technique": "Coq proof (refinement of the syscall-level program to a pure walk + simulation between two component-queue machines "
-                     "over an abstract FS) + differentials against the kernel's raw openat2 and recorded syscall answers",
+                "Static.v (per-call answers of Linux on a static tree and of a minimal procfs) and OpathM.v/ProcfsM.v (the library), "
+                "all tied by differential runs / trace replay, not proved equal to the C/Rust code. The theorem's premises beyond "
+                "well-formedness are properties of the tree only (names, link bodies, one path per object, paths fit the buffer). "
+                "Proved for a procfs handle that resolves with openat2; for the emulated procfs resolver the premise 'as_unsafe_path "
+                "returns root path + path' (C01_resolve_refines_walk) stays, exercised by T1/T2. No DAC/MAC permissions modelled. "
+                "Known finding F-H (41..127 links).",
+        "technique": "Coq proof (refinement of the syscall-level program, procfs checks included, to a pure walk + simulation between two "
+                     "component-queue machines over an abstract FS) + differentials against the kernel's raw openat2 and recorded syscall answers",
     },
     "C02": {
         "text": "Machine-checked theorems over all kernel answers (= every attacker acting at any syscall boundary): the emulated walk "
